@@ -498,3 +498,216 @@ Proof.
   destruct ok; rewrite send_plain in H by reflexivity; inversion H; subst; clear H;
     rewrite Hm, Hi; reflexivity.
 Qed.
+
+(* ------------------------------------------------------------------ *)
+(* F2 witness: a follower that has requested a snapshot installs a duplicated
+   OLDER snapshot that matches its log, and loses the entry above it. *)
+Definition w_ent (i : N) : entry := mkEntry 0 1 i [] [].
+Definition w_cs : conf_state := mkCS [1; 2; 3] [] [] [] false.
+Definition w_store : MemStorage.mem :=
+  mkMem (mkHS 1 1 4) w_cs [w_ent 1; w_ent 2; w_ent 3; w_ent 4; w_ent 5] 0 0 false false None.
+Definition w_log : raft_log := mkLog w_store (u_new 6) 4 5 4 0.
+Definition w_prs : tracker :=
+  mkTr [(1, fresh_pr 6 256); (2, fresh_pr 6 256); (3, fresh_pr 6 256)]
+       (mkConf [1; 2; 3] [] [] [] false) [] 256 false.
+(* follower 2 at term 1, leader 1; log 1..5 all persisted, committed = applied = 4 *)
+Definition w_follower : raft :=
+  mkRaft 1 1 2 [] w_log 256 1000 0 Follower true 1 None 0 (ro_new 0) 0 0 false false false false
+         false 1 10 15 10 20 0%Z u64_max 0 0 u64_max w_prs [] [] None.
+Definition w_snap : snapshot := mkSnap 4 1 w_cs.
+Definition w_msg : msg :=
+  msg_default <| m_type := MsgSnapshot |> <| m_to := 2 |> <| m_from := 1 |> <| m_term := 1 |>
+              <| m_snapshot := w_snap |>.
+
+(* the application asks for a snapshot: accepted, pending_request_snapshot = 5 *)
+Definition w_requested : raft :=
+  match request_snapshot w_follower with Ok (r, _) => r | Panic _ => w_follower end.
+
+Lemma w_requested_ok :
+  exists r1, request_snapshot w_follower = Ok (r1, E_OK) /\ w_requested = r1 /\
+    r_pending_request_snapshot r1 = 5 /\ r_log r1 = w_log.
+Proof. eexists. split; [vm_compute; reflexivity|]. split; vm_compute; auto. Qed.
+
+Theorem requested_snapshot_truncates_witness :
+  let r := w_requested in
+  let s := w_snap in
+  r_state r = Follower /\ r_pending_request_snapshot r = 5 /\
+  last_index (r_log r) = 5 /\ persisted (r_log r) = 5 /\ committed (r_log r) = 4 /\
+  s_index s = 4 /\ match_term (r_log r) (s_index s) (s_term s) = Ok true /\
+  RaftLog.term (r_log r) 5 = Ok (SOk 1) /\
+  exists r', restore r s = Ok (r', true) /\
+    last_index (r_log r') = 4 /\ RaftLog.term (r_log r') 5 = Ok (SOk 0) /\
+    persisted (r_log r') = 4 /\ u_snapshot (unst (r_log r')) = Some s.
+Proof.
+  cbn zeta. repeat (split; [vm_compute; reflexivity|]).
+  eexists. split; [vm_compute; reflexivity|]. repeat split; vm_compute; reflexivity.
+Qed.
+
+(* the same through the public step function: MsgSnapshot(4, term 1) from the leader *)
+Theorem requested_snapshot_truncates_step :
+  exists r' mm,
+    step w_requested w_msg = Ok (r', E_OK) /\
+    last_index (r_log w_requested) = 5 /\ last_index (r_log r') = 4 /\
+    r_msgs r' = r_msgs w_requested ++ [mm] /\
+    m_type mm = MsgAppendResponse /\ m_index mm = 4 /\ m_reject mm = false.
+Proof.
+  eexists. eexists. split; [vm_compute; reflexivity|]. repeat split; vm_compute; reflexivity.
+Qed.
+
+(* contrast: without a pending request the very same message only fast-forwards *)
+Theorem unrequested_snapshot_keeps_log :
+  exists r',
+    step w_follower w_msg = Ok (r', E_OK) /\
+    last_index (r_log r') = 5 /\ committed (r_log r') = 4 /\ r_log r' = r_log w_follower.
+Proof. eexists. split; [vm_compute; reflexivity|]. repeat split; vm_compute; reflexivity. Qed.
+
+(* ------------------------------------------------------------------ *)
+(* 6. when does the leader send a snapshot *)
+
+Definition snaps (l : list msg) : list msg := filter (fun x => m_type x =? MsgSnapshot) l.
+
+Lemma snaps_app a b : snaps (a ++ b) = snaps a ++ snaps b.
+Proof. apply filter_app. Qed.
+
+Lemma try_batching_snaps r to msgs pr ents msgs' pr' b :
+  try_batching r to msgs pr ents = Ok (msgs', pr', b) -> snaps msgs' = snaps msgs.
+Proof.
+  revert msgs' pr' b. induction msgs as [|m rest IH]; intros msgs' pr' b H; cbn [try_batching] in H.
+  - inversion H. reflexivity.
+  - destruct ((m_type m =? MsgAppend) && (m_to m =? to)) eqn:E.
+    + apply andb_prop in E. destruct E as [E _]. apply N.eqb_eq in E.
+      assert (Hs : forall m2, m_type m2 = m_type m -> snaps (m2 :: rest) = snaps (m :: rest)).
+      { intros m2 H2. unfold snaps. cbn [filter]. rewrite H2, E. reflexivity. }
+      destruct ents as [|e0 et].
+      * inversion H; subst. apply Hs. reflexivity.
+      * case_if H; [inversion H; reflexivity|].
+        inv_bind H. inversion H; subst. apply Hs. reflexivity.
+    + inv_bind H. destruct x as [[rest' pr1] b1]. inversion H; subst.
+      specialize (IH _ _ _ Hx). unfold snaps in *. cbn [filter]. rewrite IH. reflexivity.
+Qed.
+
+Definition needed_unavailable (r : raft) (pr : progress) : Prop :=
+  (exists e, log_entries (r_log r) (next_idx pr) (Some (r_max_msg_size r)) = Ok (SErr e) /\
+             e <> LogTemporarilyUnavailable) \/
+  (exists e, RaftLog.term (r_log r) (next_idx pr - 1) = Ok (SErr e)).
+
+(* the snapshot branch of maybe_send_append *)
+Lemma send_snapshot_branch r to pr r' pr' b :
+  (x <- prepare_send_snapshot r (msg_default <| m_to := to |>) pr to ;;
+   match x with
+   | None => Ok (r, pr, false)
+   | Some (m', pr1) => r1 <- send r m' ;; Ok (r1, pr1, true)
+   end) = Ok (r', pr', b) ->
+  (b = false /\ r' = r /\ pr' = pr) \/
+  (b = true /\ recent_active pr = true /\
+   exists sn, raft_snapshot r (pending_request_snapshot pr) to = Ok (SOk sn) /\
+     s_index sn <> 0 /\ pr' = become_snapshot pr (s_index sn) /\
+     r' = r <| r_msgs := r_msgs r ++
+            [msg_default <| m_to := to |> <| m_type := MsgSnapshot |> <| m_snapshot := sn |>
+               <| m_from := r_id r |> <| m_term := r_term r |>] |>).
+Proof.
+  intros H. inv_bind H. unfold prepare_send_snapshot in Hx.
+  destruct (recent_active pr) eqn:Ea; cbn [negb] in Hx.
+  2:{ inversion Hx; subst. inversion H; subst. left. auto. }
+  inv_bind Hx. destruct x0 as [sn|e].
+  - case_if Hx; [discriminate|]. inversion Hx; subst; clear Hx.
+    inv_bind H. inversion H; subst; clear H.
+    rewrite send_plain in Hx by reflexivity. inversion Hx; subst; clear Hx.
+    right. split; [reflexivity|]. split; [reflexivity|].
+    exists sn. split; [exact Hx0|]. split; [apply N.eqb_neq; exact E|]. split; reflexivity.
+  - destruct e; try discriminate. inversion Hx; subst. inversion H; subst. left. auto.
+Qed.
+
+Theorem snapshot_send_guard r to pr ae r' pr' b :
+  maybe_send_append r to pr ae = Ok (r', pr', b) ->
+  (* no MsgSnapshot is added or removed ... *)
+  snaps (r_msgs r') = snaps (r_msgs r) \/
+  (* ... or exactly one is appended, under the guard *)
+  (b = true /\ is_paused pr = false /\ recent_active pr = true /\
+   (pending_request_snapshot pr <> 0 \/ needed_unavailable r pr) /\
+   exists sn, raft_snapshot r (pending_request_snapshot pr) to = Ok (SOk sn) /\
+     s_index sn <> 0 /\
+     pr' = become_snapshot pr (s_index sn) /\
+     pr_state pr' = Snapshot /\ pending_snapshot pr' = s_index sn /\
+     r' = r <| r_msgs := r_msgs r ++
+            [msg_default <| m_to := to |> <| m_type := MsgSnapshot |> <| m_snapshot := sn |>
+               <| m_from := r_id r |> <| m_term := r_term r |>] |>).
+Proof.
+  unfold maybe_send_append. intros H.
+  destruct (is_paused pr) eqn:Ep; [inversion H; left; reflexivity|].
+  assert (Hsnap : forall r' pr' b,
+    (x <- prepare_send_snapshot r (msg_default <| m_to := to |>) pr to ;;
+     match x with
+     | None => Ok (r, pr, false)
+     | Some (m', pr1) => r1 <- send r m' ;; Ok (r1, pr1, true)
+     end) = Ok (r', pr', b) ->
+    (pending_request_snapshot pr <> 0 \/ needed_unavailable r pr) ->
+    snaps (r_msgs r') = snaps (r_msgs r) \/
+    (b = true /\ false = false /\ recent_active pr = true /\
+     (pending_request_snapshot pr <> 0 \/ needed_unavailable r pr) /\
+     exists sn, raft_snapshot r (pending_request_snapshot pr) to = Ok (SOk sn) /\
+       s_index sn <> 0 /\
+       pr' = become_snapshot pr (s_index sn) /\
+       pr_state pr' = Snapshot /\ pending_snapshot pr' = s_index sn /\
+       r' = r <| r_msgs := r_msgs r ++
+              [msg_default <| m_to := to |> <| m_type := MsgSnapshot |> <| m_snapshot := sn |>
+                 <| m_from := r_id r |> <| m_term := r_term r |>] |>)).
+  { intros r2 pr2 b2 H2 G. apply send_snapshot_branch in H2.
+    destruct H2 as [(_ & -> & _)|(-> & A & sn & B & C0 & -> & ->)]; [left; reflexivity|].
+    right. split; [reflexivity|]. split; [reflexivity|]. split; [exact A|]. split; [exact G|].
+    exists sn. repeat split; assumption. }
+  destruct (pending_request_snapshot pr =? INVALID_INDEX) eqn:Eq; cbn [negb] in H.
+  2:{ apply Hsnap; [exact H|]. left. apply N.eqb_neq. exact Eq. }
+  inv_bind H. rename x into ents. rename Hx into Hents.
+  case_if H; [inversion H; left; reflexivity|].
+  case_if H; [discriminate|].
+  inv_bind H. rename x into t. rename Hx into Hterm.
+  destruct t as [t|et]; destruct ents as [ents|ee].
+  - (* entries path: nothing of type MsgSnapshot changes *)
+    left. inv_bind H. destruct x as [[msgs' pr1] batched].
+    assert (Hb : snaps msgs' = snaps (r_msgs r)).
+    { destruct (r_batch_append r).
+      - eapply try_batching_snaps; exact Hx.
+      - inversion Hx; reflexivity. }
+    destruct batched.
+    + inversion H; subst. cbn. exact Hb.
+    + inv_bind H. destruct x as [m' pr2]. inv_bind H. inversion H; subst; clear H.
+      apply send_msgs in Hx1. destruct Hx1 as (m2 & A & B & _).
+      rewrite A, snaps_app. unfold snaps at 2. cbn [filter]. rewrite B.
+      assert (Ht : m_type m' = MsgAppend).
+      { unfold prepare_send_entries in Hx0. case_if Hx0; [discriminate|].
+        destruct ents; [inversion Hx0; reflexivity|].
+        inv_bind Hx0. inversion Hx0; reflexivity. }
+      rewrite Ht. change (MsgAppend =? MsgSnapshot) with false. rewrite app_nil_r. reflexivity.
+  - destruct ee; try (apply Hsnap; [exact H|]; right; left; eexists; split; [exact Hents|discriminate]).
+    inversion H; left; reflexivity.
+  - apply Hsnap; [exact H|]. right. right. eexists. exact Hterm.
+  - destruct ee; try (apply Hsnap; [exact H|]; right; left; eexists; split; [exact Hents|discriminate]).
+    inversion H; left; reflexivity.
+Qed.
+
+(* the only storage errors log_entries can answer *)
+Lemma log_entries_err l i max e :
+  log_entries l i max = Ok (SErr e) -> e = Compacted \/ e = LogTemporarilyUnavailable.
+Proof.
+  unfold log_entries. intros H. case_if H; [discriminate|].
+  unfold slice in H. inv_bind H. destruct x as [e0|].
+  - inversion H; subst. unfold must_check_outofbounds in Hx.
+    case_if Hx; [discriminate|]. inv_bind Hx. case_if Hx; [inversion Hx; auto|].
+    case_if Hx; discriminate.
+  - case_if H; [discriminate|]. inv_bind H. destruct x as [early|ents].
+    + inversion H; subst; clear H. case_if Hx0; [|discriminate].
+      inv_bind Hx0. destruct x as [ents|e1].
+      * case_if Hx0; inversion Hx0.
+      * destruct e1; inversion Hx0; auto.
+    + inv_bind H. discriminate.
+Qed.
+
+Corollary snapshot_send_guard_compacted r pr :
+  needed_unavailable r pr ->
+  log_entries (r_log r) (next_idx pr) (Some (r_max_msg_size r)) = Ok (SErr Compacted) \/
+  (exists e, RaftLog.term (r_log r) (next_idx pr - 1) = Ok (SErr e)).
+Proof.
+  intros [(e & H & Hne)|H]; [left|right; exact H].
+  destruct (log_entries_err _ _ _ _ H) as [->| ->]; [exact H|congruence].
+Qed.
